@@ -748,13 +748,31 @@ def wrap_attr_class(cls):
     og = cls.__getattribute__
     os_ = cls.__setattr__
     objget = object.__getattribute__
+    slot_names = set()
+    for k in cls.__mro__:
+        sl = k.__dict__.get("__slots__", ())
+        if isinstance(sl, str):
+            sl = (sl,)
+        for n_ in sl:
+            # private names in __slots__ are mangled like any other
+            if n_.startswith("__") and not n_.endswith("__"):
+                n_ = "_%s%s" % (k.__name__.lstrip("_"), n_)
+            slot_names.add(n_)
+
+    def is_instance_attr(self, name):
+        if name in slot_names:
+            return True
+        try:
+            return name in objget(self, "__dict__")
+        except AttributeError:
+            return False
 
     def __getattribute__(self, name):
         s = _active
         if s is not None:
             label = _shared_ids.get(id(self))
             if label is not None and name != "__dict__" \
-                    and name in objget(self, "__dict__"):
+                    and is_instance_attr(self, name):
                 t = s.by_ident.get(threading.get_ident())
                 if t is not None and not t.atomic:
                     s.events.append((t.tid, "r:%s.%s" % (label, name)))
